@@ -26,6 +26,9 @@ pub struct Probes {
 
 #[derive(Clone)]
 pub struct SeqParams {
+    /// property this run decides: only its violations (and model divergence) stop
+    /// the expansion of a state
+    pub prop: String,
     pub profile: Profile,
     pub depth: usize,
     /// stop expanding when this many distinct states were found (cap, reported)
@@ -228,7 +231,11 @@ pub fn explore(cfg: &Config, p: &SeqParams, col: &mut Collector) -> SeqStats {
                             model: m2,
                             path,
                         };
-                        if viol.is_empty() {
+                        let blocked = |viol: &Vec<Violation>| {
+                            viol.iter()
+                                .any(|v| v.prop == p.prop || v.prop == "C02" || v.prop == "C01")
+                        };
+                        if !blocked(&viol) {
                             crate::probes::on_state(&ns, cfg, &sut, p, &mut stats, &mut viol);
                         }
                         if stats.samples.len() < 2 && depth == p.depth.min(3) {
@@ -236,8 +243,9 @@ pub fn explore(cfg: &Config, p: &SeqParams, col: &mut Collector) -> SeqStats {
                                 "history": ns.path.iter().map(|o| o.short()).collect::<Vec<_>>(),
                                 "last_result": res.short()}));
                         }
-                        // states with violations are not expanded further
-                        if viol.is_empty() {
+                        // states violating the decided property (or diverging from the
+                        // model) are not expanded further
+                        if !blocked(&viol) {
                             next.push(ns);
                         }
                     }
